@@ -442,6 +442,7 @@ func (r *run) addLocals(a *ice.Agent, side int, fn *fnet, n int) {
 				if err != nil {
 					_ = c.Close()
 				} else {
+					r.ev.add("SA" + c.name())
 					r.mu.Lock()
 					r.socks = append(r.socks, c)
 					r.lastLocal = cand
@@ -629,20 +630,18 @@ func (r *run) step(t []string) {
 				}
 			}
 		})
-	case "WR": // a writer: loops until Write fails; reports the class of the first call that was blocked
+	case "WR": // a writer: loops until Write fails; a Write that reports 0 bytes and no error once a closer
+		// is running was released by the close (class nil: the error was swallowed)
 		r.call("Write", true, func() int {
 			p := make([]byte, 40+r.rng.Intn(200))
 			p[0] = 0x80
 			for {
-				t0 := time.Now()
-				_, err := r.theConn().Write(p)
-				if time.Since(t0) > 20*time.Millisecond || err != nil {
-					if err != nil && !errors.Is(err, ice.ErrNoCandidatePairs) {
-						return classify(err)
-					}
-					if err == nil && time.Since(t0) > 20*time.Millisecond && r.anyCloserStarted() {
-						return clsNil
-					}
+				n, err := r.theConn().Write(p)
+				if err != nil && !errors.Is(err, ice.ErrNoCandidatePairs) {
+					return classify(err)
+				}
+				if err == nil && n == 0 && r.anyCloserStarted() {
+					return clsNil
 				}
 				select {
 				case <-r.stop:
@@ -670,7 +669,18 @@ func (r *run) step(t []string) {
 	case "BW": // a candidate socket stops accepting writes; wait until some write is parked
 		r.mu.Lock()
 		var c *fconn
-		if j := arg(1); j < len(r.socks) {
+		j := arg(1)
+		if j == 9 {
+			if l, _ := ice.VerifCloseSelectedPair(a); l != nil {
+				for _, sc := range r.socks {
+					if sc.laddr.Port == l.Port() {
+						c = sc
+					}
+				}
+			}
+			j = 0
+		}
+		if c == nil && j < len(r.socks) {
 			c = r.socks[j]
 		}
 		r.mu.Unlock()
@@ -755,6 +765,7 @@ func (r *run) step(t []string) {
 
 						return classify(err)
 					}
+					r.ev.add("SA" + c.name())
 				}
 
 				return clsNil
@@ -799,6 +810,7 @@ func (r *run) step(t []string) {
 				if err != nil {
 					_ = c.Close()
 				} else {
+					r.ev.add("SA" + c.name())
 					r.mu.Lock()
 					r.socks = append(r.socks, c)
 					r.mu.Unlock()
@@ -1306,14 +1318,27 @@ func (g *genr) gen(tier string) (toks []string, tag string) {
 	}
 	extras()
 	hdr[3] = itoa(fast)
-	// the close point
+	// the close point: anywhere, with a bias towards the established session
 	pos := g.pick(len(sess) + 1)
+	if g.pick(2) == 0 {
+		for k, st := range sess {
+			if st[0] == "WC" {
+				pos = k + 1 + g.pick(len(sess)-k)
+
+				break
+			}
+		}
+	}
 	var script [][]string
 	script = append(script, sess[:pos]...)
 	// faults right before the close: a socket stops accepting writes
 	tag = "plain"
 	if g.pick(3) == 0 {
-		script = append(script, []string{"BW", itoa(g.pick(ncand))})
+		tgt := g.pick(ncand)
+		if g.pick(2) == 0 {
+			tgt = 9 // the socket of the selected pair
+		}
+		script = append(script, []string{"BW", itoa(tgt)})
 		tag = "blockedwrite"
 		if g.pick(2) == 0 {
 			script = append(script, []string{"GQ", itoa(g.pick(len(getterNames)))})
